@@ -1,3 +1,4 @@
+import IastModel.Lemmas.Master
 import IastModel.Config
 /-
   C05 — configuration honoured: the defaulting part (src/lib_wasm.rs `to_config`,
@@ -59,5 +60,43 @@ theorem get_sound (c : Config) (name : String) (m : CsiMethod) (h : c.get name =
 theorem empty_enables_nothing (c : Config) (h : c.methods = []) :
     c.plusEnabled = false ∧ c.tplEnabled = false ∧ ∀ n, c.get n = none := by
   simp [Config.plusEnabled, Config.tplEnabled, Config.plusOperator, Config.tplOperator, Config.get, h]
+
+
+/-! ### the full statement, for every program: only configured hooks are ever referenced -/
+
+/-- **C05 (closed world of names).**  For every configuration, fuel and source program (hypotheses
+    as in `master`), if the rewrite is not refused then every `_ddiast.<name>(…)` call site of the
+    output uses the replacement name of a configured method or operator. -/
+theorem only_configured_hooks (cfg : Config) (fuel : Nat) (p : Node)
+    (h0 : ns p = 0) (ht : targetsOk p = true)
+    (hnc : (transformProgram cfg fuel p).status ≠ .cancelled) :
+    ∀ nm ∈ hookNames (transformProgram cfg fuel p).out, nm ∈ cfg.dsts :=
+  (master cfg fuel p h0 ht hnc).2.1
+
+/-- with an empty method list nothing is ever instrumented: every input is reported not modified -/
+theorem empty_config_not_modified (cfg : Config) (fuel : Nat) (p : Node) (hm : cfg.methods = [])
+    (h0 : ns p = 0) (ht : targetsOk p = true)
+    (hnc : (transformProgram cfg fuel p).status ≠ .cancelled) :
+    (transformProgram cfg fuel p).status = .notModified := by
+  obtain ⟨hc, hnames, hmod, hn, _⟩ := master cfg fuel p h0 ht hnc
+  rw [hn]
+  cases hi : (transformProgram cfg fuel p).incs with
+  | nil => rfl
+  | cons t ts =>
+    exfalso
+    -- a hook call site would have to carry one of the (zero) configured names
+    have hpos : 0 < hookCount (transformProgram cfg fuel p).out := by rw [hc, hi]; simp
+    rw [← hooks_length] at hpos
+    obtain ⟨h, hh⟩ := List.exists_mem_of_length_pos hpos
+    have hhook : isHook h = true := by
+      have := hh
+      unfold hooks at this
+      exact Node.collect_sound _ _ _ this
+    obtain ⟨nm, hnm⟩ := Option.isSome_iff_exists.mp hhook
+    have : nm ∈ hookNames (transformProgram cfg fuel p).out := by
+      unfold hookNames
+      exact List.mem_filterMap.mpr ⟨h, hh, hnm⟩
+    have := hnames nm this
+    simp [Config.dsts, hm] at this
 
 end IastModel.C05
